@@ -275,7 +275,43 @@ def oracle(case, rec):
                         f'output={df["Feature"].tolist()}'[:1800])
 
 
-ORACLES = {'C17/greedy-valid': oracle, 'C17/exhaustive': oracle}
+@st.composite
+def concurrent_case(draw):
+    """Several rankings of different score sets running at the same time in one process (threads of a service / a notebook executor):
+    each must be the greedy ranking of ITS OWN scores."""
+    return {'concurrent': [draw(big_case()) for _ in range(draw(st.integers(8, 16)))], 'threads': draw(st.integers(2, 6))}
+
+
+def oracle_concurrent(case, rec):
+    import sys
+    from concurrent.futures import ThreadPoolExecutor
+    jobs = []
+    for sub in case['concurrent']:
+        feats, rel, red, rla, red_self, rla_self = materialize(sub)
+        relevance, redundancy, relation = build_dicts(feats, rel, red, rla, red_self, rla_self)
+        jobs.append((sub, feats, rel, red, rla, relevance, redundancy, relation))
+
+    def run(job):
+        sub, feats, rel, red, rla, R, D, L = job
+        return rank_features_3MR(dict(R), dict(D), dict(L), strategy=sub['strategy'], alpha=float(sub['alpha']), beta=float(sub['beta']))
+    old = sys.getswitchinterval()
+    sys.setswitchinterval(1e-5)          # frequent thread switches: overlapping executions actually interleave
+    try:
+        with ThreadPoolExecutor(max_workers=int(case['threads'])) as ex:
+            outs = list(ex.map(run, jobs))
+    finally:
+        sys.setswitchinterval(old)
+    rec.nt(True, key=case)
+    rec.cls('concurrent-rankings')
+    for i, (job, df) in enumerate(zip(jobs, outs)):
+        sub, feats, rel, red, rla = job[:5]
+        msg, _ = check_output(df, feats, rel, red, rla, sub['strategy'], float(sub['alpha']), float(sub['beta']))
+        if msg is not None:
+            raise Violation(f'ranking #{i} of {len(jobs)} executed concurrently in {case["threads"]} threads: {msg}'[:1500],
+                            kind='C17/concurrent')
+
+
+ORACLES = {'C17/greedy-valid': oracle, 'C17/exhaustive': oracle, 'C17/concurrent': oracle_concurrent}
 
 
 # ---- exhaustive small scope ------------------------------------------------------------------------
@@ -493,4 +529,5 @@ def run(ctx):
         ctx.report('C17/exhaustive', case, res[1] if res else 'enumeration mismatch (not reproduced on re-run)')
 
     drive(ctx, [Clause('C17/greedy-valid', case_strategy, oracle, quick=1500, thorough=240000, quick_shards=4),
-                Clause('C17/pipeline', pipeline_case, oracle_pipeline, quick=48, thorough=4500, quick_shards=8)])
+                Clause('C17/pipeline', pipeline_case, oracle_pipeline, quick=48, thorough=4500, quick_shards=8),
+                Clause('C17/concurrent', concurrent_case, oracle_concurrent, quick=8, thorough=400, quick_shards=4)])
